@@ -147,7 +147,7 @@ def xml(n, dm="null", nvars=0):
 class Gen:
     def __init__(self, rng, max_states=10, events=("e", "f", "g"), p_history=0.3, p_parallel=0.35,
                  p_exec=0.5, p_fail=0.08, p_targetless=0.15, p_internal=0.15, p_multi=0.25, p_eventless=0.15,
-                 p_cond=0.25, p_initial_elem=0.3, p_final=0.3, p_loop=0.25, dm="null"):
+                 p_cond=0.25, p_initial_elem=0.3, p_final=0.3, p_loop=0.25, dm="null", nvars=0):
         self.__dict__.update(locals())
         self.n = 0
         self.uv = 0
@@ -214,6 +214,10 @@ class Gen:
         out = []
         for _ in range(r.randint(1, 3)):
             x = r.random()
+            if self.nvars and x > 0.8:
+                v = r.randrange(self.nvars)
+                out.append(("assign", self.nuv(), v, r.choice([0, 1, 2])) if r.random() < 0.5 else ("incr", self.nuv(), v))
+                continue
             if x < self.p_fail: out.append(("fail", self.nuv(), r.choice(["exec", "comm"])))
             elif x < 0.35: out.append(("raise", self.nuv(), r.choice(self.events if r.random() < self.p_loop else ("i1", "i2"))))
             elif x < 0.55: out.append(("log", self.nuv(), "L%d" % self.uv))
@@ -235,6 +239,7 @@ class Gen:
         r = self.rng
         x = r.random()
         if x < 0.15: return "never"
+        if self.nvars and x < 0.5: return "var:%d:%d" % (r.randrange(self.nvars), r.choice([0, 1, 2, 3]))
         ids = getattr(self, "ids", ["s1"])
         return "in:" + r.choice(ids)
 
